@@ -131,6 +131,8 @@ MUTANTS = {
     'vmsa_ap7_writable': (V, "            if memory_system_architecture() == MemArch.VMSA:\n                abort = iswrite\n", "            if memory_system_architecture() == MemArch.VMSA:\n                abort = False\n", ['C19']),
     'manager_domain_checks_permissions': (V, "        if check_domain:\n            check_permission = self.check_domain(", "        if check_domain:\n            check_permission = self.check_domain(tlbrecord_s1.domain, mva, tlbrecord_s1.level, iswrite) or True\n        if False:\n            check_permission = self.check_domain(", ['C19']),
     'vmsa_ap1_user_allowed': (V, "        elif perms.ap == 0b001:\n            abort = not ispriv\n", "        elif perms.ap == 0b001:\n            abort = False\n", ['C19']),
+    'hstr_tn_ignored': (V, "                    cr_nnum != 14 and\n                    self.registers.hstr.get_t_n(cr_nnum)):", "                    cr_nnum != 14 and\n                    self.registers.hstr.get_t_n(cr_nnum) and False):", ['C11']),
+    'cp15_trap_ec_wrong': (V, "                    self.write_hsr(0b000011, hsr_string)\n                self.registers.take_hyp_trap_exception()\n            if (have_security_ext() and", "                    self.write_hsr(0b000101, hsr_string)\n                self.registers.take_hyp_trap_exception()\n            if (have_security_ext() and", ['C11']),
     'keyerror_for_ap_100': (V, "        elif perms.ap == 0b100:\n            print('unpredictable')", "        elif perms.ap == 0b100:\n            abort = {}[perms.ap]", ['C18']),
     'stale_opcode_len_reuse': (V, "        elif self.registers.current_instr_set() == InstrSet.THUMB:\n            self.opcode_len = 2\n            self.opcode = self.mem_a_get(self.registers.pc_store_value(), self.opcode_len)",
                                "        elif self.registers.current_instr_set() == InstrSet.THUMB:\n            self.opcode_len = 2 if self.opcode_len != 1 else 4\n            self.opcode = self.mem_a_get(self.registers.pc_store_value(), 2)", []),
